@@ -44,6 +44,11 @@ package fsutil
 //@ lemma pathless_asym C12 C09: forall a string, b string :: specPathLess(a, b) ==> !specPathLess(b, a)
 //@ lemma pathless_trans C12 C09: forall a string, b string, c string :: specPathLess(a, b) && specPathLess(b, c) ==> specPathLess(a, c)
 //@ lemma pathless_neq C12: forall a string, b string :: specPathLess(a, b) ==> a != b
+// totality is not provable as a bare lemma over the first-difference definition (finding
+// the least differing index needs induction); it is a corollary of the verified program:
+// ComparePath terminates and its three postconditions are exhaustive - the loop is the induction
+//@ lemma pathless_total C12 C09: forall a string, b string :: ComparePath(a, b) == ComparePath(a, b) ==> specPathLess(a, b) || a == b || specPathLess(b, a)
+//@   use fn:ComparePath
 
 // ---------------------------------------------------------------------------
 // diff_containerd.go
